@@ -1,0 +1,17 @@
+//go:build verif
+
+// Contracts for the verifier in /verif (govc). Comment-only.
+
+package internal
+
+// ---------------------------------------------------------------------------------------------------
+// concat.go — generic chunk concatenation (C14). Only panic-freedom of the slice/type plumbing is under contract:
+// reflect.Value operations are opaque to the generator.
+// ---------------------------------------------------------------------------------------------------
+
+//@ func toSliceValue
+//@   props C14
+//@   requires[nonempty] len(vs) >= 1
+//@   note every entry of vs may be any interface value, including nil (the values of a message's Extra map); the library precondition of reflect.SliceOf (non-nil type) is checked as a safety obligation
+//@   loop 1:
+//@     invariant[idx] 1 <= i
